@@ -528,6 +528,8 @@ class CallGraph:
                         edges[f.id].append((bb, k["res"], "spawn" if spawn else "closure-arg"))
                         if local_target:
                             passed_to[local_target].add(k["res"])
+        for h, cs in getattr(crate, "helper_passed", {}).items():
+            passed_to[h] |= cs
         # a function that forwards its own Fn parameter to a helper hands it the closures it received itself
         direct_callers = defaultdict(set)
         for f in crate.real_fns():
@@ -654,6 +656,14 @@ def specialise_lock_param_helpers(crate):
     crate.lock_param_helpers = set()
     if not H:
         return
+    # closures handed to a helper at its (about to be replaced) call sites: the helper's own Fn-parameter calls resolve to them
+    crate.helper_passed = defaultdict(set)
+    for g in crate.real_fns():
+        for _bb, c in g.calls():
+            if c.get("res") in H and c.get("res_local"):
+                for cid, is_local in c.get("clos", []):
+                    if is_local and cid in crate.fns:
+                        crate.helper_passed[c["res"]].add(cid)
     for g in list(crate.real_fns()):
         if any(c.get("res") in H and c.get("res_local") for _bb, c in g.calls()):
             crate.fns[g.id] = inline_fn(crate, g, depth=3, max_blocks=400, pred=lambda x: x.id in H)
